@@ -37,6 +37,14 @@ Definition srv0 : srv := mksrv None 0 [].
 (* CleanupHlsIfNeeded schedules something only in these modes *)
 Definition arms (c : cfg) : bool := (c_mode c =? 1) || (c_mode c =? 2).
 
+(* hls.enable / hls.enable_https (hls offered on the http port / on the https port) and the three places that test
+   them.  They must agree: a muxer that is started has to be disposed and cleaned up after. *)
+Record hsw := mksw { sw_http : bool; sw_https : bool }.
+Definition hls_start_guard (g : hsw) : bool := sw_http g || sw_https g.        (* Group.startHlsIfNeeded *)
+Definition hls_stop_guard (g : hsw) : bool := sw_http g || sw_https g.         (* Group.stopHlsIfNeeded *)
+Definition hls_cleanup_guard (g : hsw) : bool := sw_http g || sw_https g.      (* ServerManager.CleanupHlsIfNeeded, after the fix *)
+Definition hls_cleanup_guard_orig (g : hsw) : bool := sw_http g.               (* ... as shipped: Enable only *)
+
 (* the muxer that is alive for this stream name, if any *)
 Definition live_mux (v : srv) : option mux :=
   match sv_group v with Some (_, Some m) => Some m | _ => None end.
@@ -57,7 +65,8 @@ Definition to_mux (c : cfg) (v : srv) (s : fs) (e : event) : srv * list op :=
   | _ => (v, [])
   end.
 
-Definition srv_step (by_name : bool) (c : cfg) (v : srv) (s : fs) (e : sev) : srv * list op :=
+(* stops / armed: the values of the stop and cleanup guards (a muxer exists only when the start guard held) *)
+Definition srv_step (by_name stops armed : bool) (c : cfg) (v : srv) (s : fs) (e : sev) : srv * list op :=
   match e with
   | SvPub =>
       match sv_group v with
@@ -74,8 +83,10 @@ Definition srv_step (by_name : bool) (c : cfg) (v : srv) (s : fs) (e : sev) : sr
   | SvStop =>
       match sv_group v with
       | Some (id, Some _) =>
-          let '(v1, o) := to_mux c v s EvDispose in
-          (mksrv (sv_group v1) (sv_gen v1) (sv_timers v1 ++ (if arms c then [id] else []))%list, o)
+          if stops then
+            let '(v1, o) := to_mux c v s EvDispose in
+            (mksrv (sv_group v1) (sv_gen v1) (sv_timers v1 ++ (if armed && arms c then [id] else []))%list, o)
+          else (v, [])                                                  (* the muxer is never disposed *)
       | _ => (v, [])
       end
   | SvTick =>
@@ -93,18 +104,26 @@ Definition srv_step (by_name : bool) (c : cfg) (v : srv) (s : fs) (e : sev) : sr
   end.
 
 (* per event: was a muxer alive for the name when the event happened, and the layer calls it made *)
-Fixpoint srv_exec (by_name : bool) (c : cfg) (v : srv) (s : fs) (evs : list sev) : list (bool * list op) :=
+Fixpoint srv_exec_g (by_name stops armed : bool) (c : cfg) (v : srv) (s : fs) (evs : list sev) : list (bool * list op) :=
   match evs with
   | [] => []
   | e :: t =>
-      let '(v1, o) := srv_step by_name c v s e in
+      let '(v1, o) := srv_step by_name stops armed c v s e in
       ((match live_mux v with Some _ => true | None => false end, o)
-       :: srv_exec by_name c v1 (apply_all s o) t)
+       :: srv_exec_g by_name stops armed c v1 (apply_all s o) t)
   end.
+(* hls.enable = true (the default configuration) *)
+Definition srv_exec (by_name : bool) := srv_exec_g by_name true true.
 
 (* the faithful server: operations per event, and all of them *)
 Definition srv_run_ev (c : cfg) (evs : list sev) : list (list op) := map snd (srv_exec true c srv0 [] evs).
 Definition srv_run (c : cfg) (evs : list sev) : list op := concat (srv_run_ev c evs).
+
+(* ... under a configuration of the two switches: without the start guard there is no muxer and no call at all *)
+Definition srv_exec_sw (g : hsw) (c : cfg) (evs : list sev) : list (bool * list op) :=
+  if hls_start_guard g then srv_exec_g true (hls_stop_guard g) (hls_cleanup_guard g) c srv0 [] evs
+  else map (fun _ => (false, [])) evs.
+Definition srv_run_ev_sw (g : hsw) (c : cfg) (evs : list sev) : list (list op) := map snd (srv_exec_sw g c evs).
 
 (* ---- the same history at the muxer level (HlsMuxer.run): who is alive, how many timers are pending ---- *)
 Fixpoint lower_from (c : cfg) (alive : bool) (pending : nat) (evs : list sev) : list event :=
